@@ -1331,9 +1331,109 @@ func (r *c09Runner) corpus() {
 		}
 		return true
 	})
+	// EXAMINE is read-only (RFC 3501 6.3.2: "no changes to the permanent state of the mailbox, including
+	// per-user state, are permitted"; 6.4.2: CLOSE on a mailbox selected by EXAMINE removes no messages
+	// and gives no error).  Session 1 examines, session 0 observes independently.
+	r.examineReadOnly()
 	// BODYSTRUCTURE of a multipart without parts: crash oracle only (not modelled)
 	r.probe([]string{"CREATE INBOX", "APPEND INBOX {52}\x00Content-Type: multipart/mixed; boundary=b\r\n\r\n--b--\r\n", "APPEND INBOX {45}\x00Content-Type: multipart/mixed; boundary=b\r\n\r\n",
 		"SELECT INBOX", "FETCH 1:2 BODYSTRUCTURE", "FETCH 1:2 BODY", "FETCH 1:2 FULL", "FETCH 1:2 ALL", "FETCH 1:2 (ENVELOPE BODY[1] BODY[1.MIME] BINARY[1] BINARY.SIZE[1])"}, "corpus:bodystructure-empty-multipart")
+}
+
+// examineReadOnly: after EXAMINE, FETCH BODY[] / STORE / CLOSE / EXPUNGE / UID EXPUNGE / MOVE by the examining
+// session must leave the mailbox as an independent session sees it (STATUS counts, FETCH FLAGS) unchanged.
+// The history is also replayed on the model like every other history.
+func (r *c09Runner) examineReadOnly() {
+	msg := "From: a@example.org\r\nSubject: hi\r\n\r\nbody one\r\n"
+	status := func() c09Cmd {
+		return c09Plain(0, "STATUS", "STATUS INBOX "+c09AllStatusW, "CStatus "+coqHxS("INBOX")+" "+c09AllStatus)
+	}
+	on1 := func(c c09Cmd) c09Cmd { c.Sess = 1; return c }
+	examine := c09Plain(1, "EXAMINE", "EXAMINE INBOX", "CSelect "+coqHxS("INBOX")+" true")
+	cmds := []c09Cmd{
+		c09Plain(0, "CREATE", "CREATE INBOX", "CCreate "+coqHxS("INBOX")),
+		c09Plain(0, "CREATE", "CREATE other", "CCreate "+coqHxS("other")),
+		c09AppendFixed("INBOX", nil, msg),
+		c09AppendFixed("INBOX", nil, msg),
+		examine,
+		on1(c09FetchFixed(false, "1", []*c09Section{{}}, false)), // 5: FETCH 1 (BODY[])
+		status(), // 6
+		c09Plain(1, "STORE", `STORE 2 +FLAGS (\Flagged)`, "CStore false "+c09SetRanges("2")+" StAdd false "+c09Strs([]string{`\Flagged`})),
+		c09Plain(0, "SELECT", "SELECT INBOX", "CSelect "+coqHxS("INBOX")+" false"),
+		c09FetchFixed(false, "1:2", nil, true), // 9: FETCH 1:2 (FLAGS) by the observer
+		c09Plain(0, "STORE", `STORE 2 +FLAGS.SILENT (\Deleted)`, "CStore false "+c09SetRanges("2")+" StAdd true "+c09Strs([]string{`\Deleted`})),
+		c09Plain(1, "CLOSE", "CLOSE", "CClose"), // 11
+		status(),                                // 12
+		examine,
+		c09Plain(1, "EXPUNGE", "EXPUNGE", "CExpunge None"),
+		status(), // 15
+		c09Plain(1, "EXPUNGE", "UID EXPUNGE 1:*", "CExpunge "+coqSome(c09SetRanges("1:*"))),
+		status(), // 17
+		c09Plain(1, "MOVE", "MOVE 1 other", "CMove false "+c09SetRanges("1")+" "+coqHxS("other")),
+		status(), // 19
+		on1(c09FetchFixed(false, "1:2", []*c09Section{{Spec: "TEXT"}}, true)),
+		c09FetchFixed(false, "1:2", nil, true), // 21
+	}
+	const src = "corpus:examine-readonly"
+	item := func(st *c09Step, name string) string {
+		for _, d := range st.Res.Data {
+			if d.K == "STATUS" {
+				for _, it := range d.Items {
+					if strings.EqualFold(it[0], name) {
+						return it[1]
+					}
+				}
+			}
+		}
+		return "?"
+	}
+	r.runHistory(2, cmds, src, func(step int, st *c09Step, conns []*c09Conn) bool {
+		fail := func(what, text string) {
+			r.h.Fail("c09/examine-not-readonly:"+what, text+" (RFC 3501 6.3.2: EXAMINE permits no change to the permanent state of the mailbox)",
+				map[string]interface{}{"src": src, "sessions": 2, "commands": cmds[:step+1]})
+		}
+		flagsOf := func(seq uint64) ([]string, bool) {
+			for _, d := range st.Res.Data {
+				if d.K == "FETCH" && d.Seq == seq {
+					for _, it := range d.FItems {
+						if it.K == "FLAGS" {
+							return it.Flags, true
+						}
+					}
+				}
+			}
+			return nil, false
+		}
+		switch step {
+		case 6:
+			if u := item(st, "UNSEEN"); u != "2" {
+				fail("fetch-set-seen", "after EXAMINE INBOX and FETCH 1 (BODY[]) by the examining session, STATUS UNSEEN seen by another session is "+u+", not 2")
+			}
+		case 9:
+			if fl, ok := flagsOf(2); !ok || c09HasFold(fl, `\Flagged`) {
+				fail("store-persisted", fmt.Sprintf("after EXAMINE INBOX and STORE 2 +FLAGS (\\Flagged) by the examining session, another session sees message 2 with flags %v", fl))
+			}
+			if fl, ok := flagsOf(1); !ok || c09HasFold(fl, `\Seen`) {
+				fail("fetch-set-seen", fmt.Sprintf("after EXAMINE INBOX and FETCH 1 (BODY[]) by the examining session, another session sees message 1 with flags %v", fl))
+			}
+		case 11:
+			if st.Res.Class != 0 {
+				fail("close-refused", "CLOSE of a mailbox selected by EXAMINE was not answered OK (RFC 3501 6.4.2: no messages are removed, and no error is given)")
+			}
+		case 12, 15, 17, 19:
+			if m := item(st, "MESSAGES"); m != "2" {
+				what := map[int]string{12: "close-expunged", 15: "expunge-removed", 17: "uid-expunge-removed", 19: "move-removed"}[step]
+				fail(what, fmt.Sprintf("INBOX holds 2 messages, message 2 is \\Deleted; after %q by the session which selected it with EXAMINE, STATUS MESSAGES seen by another session is %s, not 2", cmds[step-1].Line, m))
+			}
+		case 21:
+			for seq := uint64(1); seq <= 2; seq++ {
+				if fl, ok := flagsOf(seq); ok && c09HasFold(fl, `\Seen`) {
+					fail("fetch-set-seen", fmt.Sprintf("after EXAMINE INBOX and FETCH 1:2 (FLAGS BODY[TEXT]) by the examining session, another session sees message %d with flags %v", seq, fl))
+				}
+			}
+		}
+		return true
+	})
 }
 
 // probe runs raw command lines (a literal is written "LINE {n}\x00payload") with the crash oracle only.
